@@ -34,6 +34,30 @@ def sumR (xs : List Rat) : Rat := xs.foldl (· + ·) 0
 def unzip2 {α β : Type} (l : List (α × β)) : Except String (List α × List β) :=
   if l.isEmpty then .error "ERR:Value" else .ok l.unzip
 
+/-- `a, b, c, d = list(zip(*quadruples))`: the four columns; unpacking an empty list raises `ValueError` -/
+def unzip4 {α : Type} (l : List (α × α × α × α)) : Except String (List α × List α × List α × List α) :=
+  if l.isEmpty then .error "ERR:Value"
+  else .ok (l.map (·.1), l.map (·.2.1), l.map (·.2.2.1), l.map (·.2.2.2))
+
+/-- `min(xs)`: the first minimal element; `ValueError` on an empty sequence -/
+def minL : List Rat → Except String Rat
+  | [] => .error "ERR:Value"
+  | x :: xs => .ok (xs.foldl (fun m y => if y < m then y else m) x)
+
+/-- `max(xs)`: the first maximal element -/
+def maxL : List Rat → Except String Rat
+  | [] => .error "ERR:Value"
+  | x :: xs => .ok (xs.foldl (fun m y => if y > m then y else m) x)
+
+/-- `[f(x) for x in xs]` / `for x in xs: x.a = …` where `f` creates or updates objects: the heap is threaded through the
+    list from left to right -/
+def mapH {η α β : Type} (f : η → α → η × β) : η → List α → η × List β
+  | h, [] => (h, [])
+  | h, x :: xs =>
+    let r := f h x
+    let r2 := mapH f r.1 xs
+    (r2.1, r.2 :: r2.2)
+
 /-- `d[k].append(v)` on a `defaultdict(list)` (a dict keeps insertion order) -/
 def ddAppend {κ ν : Type} [BEq κ] (d : List (κ × List ν)) (k : κ) (v : ν) : List (κ × List ν) :=
   match d with
